@@ -36,6 +36,7 @@ def type_map_factory(data_type: type[DataType]) -> dict[Types, DataType]:
         Types.date_time: data_type_str,
         Types.timedelta: data_type.from_import(IMPORT_TIMEDELTA),
         Types.password: data_type_str,
+        Types.path: data_type_str,
         Types.email: data_type_str,
         Types.uuid: data_type_str,
         Types.uuid1: data_type_str,
